@@ -40,6 +40,12 @@ func main() {
 		i, _ := strconv.Atoi(os.Args[4])
 		n, _ := strconv.Atoi(os.Args[5])
 		run.RunShard(ck, os.Args[3], i, n, os.Args[6])
+	case "confirm":
+		ck := checks.All[os.Args[2]]
+		if ck == nil {
+			os.Exit(2)
+		}
+		os.Exit(run.Confirm(ck, os.Args[3]))
 	case "replay":
 		os.Exit(run.ReplayFile(checks.All, os.Args[2]))
 	default:
